@@ -322,7 +322,9 @@ class C(Contract):
 # validators
 # ------------------------------------------------------------------------------------------------
 
-NDINFO_KINDS = ("real", "int", "ndarray", "list")
+# value forms of a calibration argument: scalars, flat ndarray / list of symbolic length, and the forms that np.array(...).flatten()
+# turns into a vector: a 2-d ndarray and a nested list of rows with symbolic extents r x c (covers (ndim,k), (ndim,1), (1,ndim)), a 0-d ndarray
+NDINFO_KINDS = ("real", "int", "ndarray", "list", "ndarray2d", "nested", "ndarray0d")
 
 
 def ndinfo_value(ctx, kind, name):
@@ -334,6 +336,12 @@ def ndinfo_value(ctx, kind, name):
         return fresh_seq(ctx, name, "real", pylist=False)
     if kind == "list":
         return fresh_seq(ctx, name, "real", pylist=True)
+    if kind == "ndarray2d":
+        return cm.fresh_table(ctx, name, "real", pylist=False)
+    if kind == "nested":
+        return cm.fresh_table(ctx, name, "real", pylist=True)
+    if kind == "ndarray0d":
+        return fresh_nd(ctx, name, 0, complex_flag=False)
     raise ValueError(kind)
 
 
@@ -341,11 +349,23 @@ def is_scalar(v):
     return isinstance(v, (Sym, int, float, np.number)) and not isinstance(v, bool) and not (isinstance(v, Sym) and z3.is_string(v.t))
 
 
+def flat_size(value):
+    """number of entries of a calibration argument after numpy's conversion + flattening (None for scalars)"""
+    if isinstance(value, SymArr):
+        return cm.flat_size(value)
+    if isinstance(value, (list, tuple)):
+        if any(isinstance(x, (list, tuple, SymArr)) for x in value):
+            raise V.OutOfSubset("concrete nested calibration argument")
+        return len(value)
+    return None
+
+
 def ndinfo_bad(value, ndim):
-    """property-level meaning of a calibration argument: a scalar is broadcast, a sequence must have one entry per axis"""
+    """property-level meaning of a calibration argument: a scalar is broadcast, anything else must denote exactly one entry per axis
+    (flat, nested and 2-d values are flattened by the validator, so what counts is the TOTAL number of entries)"""
     if is_scalar(value):
         return False
-    L = seq_len(value)
+    L = flat_size(value)
     if L is None:
         raise V.OutOfSubset(f"calibration argument of type {type(value).__name__}")
     if not contains_sym(L):
@@ -354,9 +374,11 @@ def ndinfo_bad(value, ndim):
 
 
 def ndinfo_spec(value, ndim):
-    """the vector of `ndim` calibration values the argument denotes"""
+    """the vector of `ndim` calibration values the argument denotes (row-major order for nested / 2-d values)"""
     if is_scalar(value):
         return [value] * ndim
+    if isinstance(value, SymArr):
+        return [cm.flat_at(value, i) for i in range(ndim)]
     return [seq_at(value, i) for i in range(ndim)]
 
 
@@ -439,11 +461,15 @@ C_UNITS = C(f"{VA}:validate_units", setup=vu_setup, ensures=vu_ensures,
 def ev_setup(ctx):
     d = pick(ctx, "d", range(0, 6))
     ndim = pick(ctx, "ndim", [None] + list(range(0, 6)))
-    return NS(array=fresh_nd(ctx, "arr", d), dtype=None, ndim=ndim, case=f"array.ndim={d},ndim={ndim}")
+    dtype = pick(ctx, "dtype", (None, float))
+    return NS(array=fresh_nd(ctx, "arr", d), dtype=dtype, ndim=ndim, case=f"array.ndim={d},ndim={ndim},dtype={'None' if dtype is None else 'float'}")
 
 
-def ev_result(array, ndim):
-    """ensure_valid_array on an ndarray: the array itself, or a leading-1-padded VIEW of it when it has fewer axes than requested"""
+def ev_result(array, ndim, dtype=None):
+    """ensure_valid_array on an ndarray: without dtype the array ITSELF, with a dtype a converted COPY (astype); then a leading-1-padded
+    VIEW of that when it has fewer axes than requested"""
+    if dtype is not None:
+        array = cm.nd_copy(array)
     d = array.ndim
     if ndim is None or d >= ndim:
         return array
@@ -454,7 +480,7 @@ def ev_result(array, ndim):
 
 
 def ev_requires(s):
-    ok = isinstance(s.array, SymArr) and not s.array.pylist and s.dtype is None
+    ok = isinstance(s.array, SymArr) and not s.array.pylist
     return [("array-is-an-ndarray (deductive domain; array-likes are covered by the bounded check)", B(ok))]
 
 
@@ -464,7 +490,10 @@ def ev_ensures(s):
     out = [("result:is-ndarray", B(isinstance(r, SymArr) and not r.pylist))]
     if isinstance(r, SymArr):
         out.append(("result:ndim", B(r.ndim == want)))
-        out.append(("result:same-object-when-ndim-fits", B(r is a) if want == a.ndim else B(r.base is a.base)))
+        if s.dtype is None:
+            out.append(("result:same-object-when-ndim-fits", B(r is a) if want == a.ndim else B(r.base is a.base)))
+        else:
+            out.append(("result:converted-copy-when-a-dtype-is-given", B(r is not a and r.base is not a.base)))
         out.append(("result:values", arr_eq(r, ev_result(a, s.ndim)) if r.ndim == want else FALSE))
         out.append(("frame:argument-not-written", B(unwritten(s.old))))
     return tagged(out, getattr(s, "case", "call"))
@@ -473,7 +502,7 @@ def ev_ensures(s):
 C_ENSURE = C(f"{VA}:ensure_valid_array", setup=ev_setup, requires=ev_requires, ensures=ev_ensures,
              snapshot=lambda s: stamp(s.array),
              raises={ValueError: lambda s: s.ndim is not None and s.array.ndim > s.ndim},
-             result=lambda ctx, s: ev_result(s.array, s.ndim))
+             result=lambda ctx, s: ev_result(s.array, s.ndim, s.dtype))
 
 
 VALIDATORS = [C_NDINFO, C_UNITS, C_ENSURE]
@@ -661,7 +690,7 @@ def fresh_calibration_terms(o, snaps, what="frame"):
     return out
 
 
-INIT_VARIANTS = [("real", "int", "str"), ("ndarray", "list", "list"), ("list", "ndarray", "list"), ("int", "real", "list")]
+INIT_VARIANTS = [("real", "int", "str"), ("ndarray", "list", "list"), ("list", "ndarray", "list"), ("int", "real", "list"), ("ndarray2d", "nested", "list")]
 
 
 def init_setup_for(clsname, with_metadata):
@@ -718,7 +747,8 @@ def init_contract(clsname):
 
 INIT_CONTRACTS = [init_contract(n) for n in CLS]
 
-FA_VARIANTS = [(None, None, None, None), ("nm", "real", "list", "str"), ("nm", "ndarray", "int", "list"), (None, "list", None, "list"), ("nm", None, "ndarray", None)]
+FA_VARIANTS = [(None, None, None, None), ("nm", "real", "list", "str"), ("nm", "ndarray", "int", "list"), (None, "list", None, "list"), ("nm", None, "ndarray", None),
+               ("nm", "nested", "ndarray2d", "list"), ("nm", "ndarray0d", None, None)]
 
 
 def fa_contract(clsname):
